@@ -111,7 +111,7 @@ def theorems_of(module):
         m = re.match(r"\s*end\s+(\S+)", line)
         if m and stack and stack[-1] == m.group(1):
             stack.pop(); continue
-        m = re.match(r"\s*theorem\s+([A-Za-z0-9_.']+)", line)
+        m = re.match(r"\s*theorem\s+([A-Za-z0-9_.'?!]+)", line)
         if m:
             names.append(".".join(stack + [m.group(1)])); continue
         if re.match(r"\s*example\b", line):
